@@ -145,11 +145,18 @@ type failingWriter struct {
 	calls int
 	failK int
 	err   error
+	mode  int // how many bytes the failing call claims to have accepted: 0 none, 1 half, 2 all
 }
 
 func (w *failingWriter) Write(p []byte) (int, error) {
 	w.calls++
 	if w.failK > 0 && w.calls == w.failK {
+		switch w.mode {
+		case 1:
+			return len(p) / 2, w.err
+		case 2:
+			return len(p), w.err // e.g. a transport that reports the error of a deferred flush
+		}
 		return 0, w.err
 	}
 	return w.buf.Write(p)
@@ -358,7 +365,7 @@ func TestC20Logs(t *testing.T) {
 		if len(good) > 0 {
 			total := fw.calls
 			k := rapid.IntRange(1, total).Draw(t, "fail_call")
-			fw2 := &failingWriter{failK: k, err: errBoom}
+			fw2 := &failingWriter{failK: k, err: errBoom, mode: rapid.IntRange(0, 2).Draw(t, "fail_mode")}
 			w2 := &tlog.Writer{ByteWriter: fw2, DialectRW: drw}
 			if err := w2.Initialize(); err != nil {
 				t.Fatalf("BROKEN: %v", err)
